@@ -232,8 +232,9 @@ def enumerate_pair(seed, tier, explicit=None):
             # ---- the fault space
             points = []
             for k in range(1, K + 1):
-                points.append({'kind': 'F1', 'at': k, 'exc': 'interrupt' if k % 3 == 0
-                               else 'fault'})
+                points.append({'kind': 'F1', 'at': k,
+                               'exc': ('fault', 'interrupt', 'fault', 'exit', 'cancel',
+                                       'interrupt')[k % 6]})
             errs = ['disk I/O error', 'database or disk is full', 'database is locked']
             for n in range(1, S + 1):
                 points.append({'kind': 'F3', 'at': n, 'err': errs[n % 3]})
@@ -494,7 +495,7 @@ def build_b(seed):
         f = {'kind': k}
         if k == 'F1':
             f['at'] = prng.choice([1, 2, 3, 5, 8, 13, 21, 34, 55, 89])
-            f['exc'] = prng.choice(['fault', 'interrupt'])
+            f['exc'] = prng.choice(['fault', 'fault', 'interrupt', 'interrupt', 'exit', 'cancel'])
         elif k == 'F3':
             f['at'] = prng.choice([1, 2, 3, 5, 8, 13, 21, 34])
             f['mid'] = prng.random() < 0.3
